@@ -48,6 +48,12 @@ static const char *const bk_method[BK_N] = { "epoll", "epoll (with changelist)",
 /* real (unwrapped) system calls: harness probes must not go through the vclock wrappers */
 int __real_poll(struct pollfd *, nfds_t, int);
 
+/* Freed memory is recycled quickly instead of sitting in ASan's 256 MB quarantine:
+ * first-touch page faults are very expensive in this VM and every execution
+ * allocates the same few objects (use-after-free detection keeps a 4 MB window). */
+const char *__asan_default_options(void);
+const char *__asan_default_options(void) { return "quarantine_size_mb=4:thread_local_quarantine_size_kb=256"; }
+
 static void bk_quiet_log(int sev, const char *msg) { (void)sev; (void)msg; }
 
 /* number of warnings libevent logged in this execution (a warning from the
